@@ -463,6 +463,11 @@ fn main() {
     cov.insert("rule".into(), json!(format!(
         "all 65536 extension types x {} generic contents through the 3 dispatchers, parse_tls_extension_unknown and the 16 tag-specific parsers; {} well-formed encodings of the 26 known types x every combination of <= {} deviations; every content string of length <= {} over a 5-7 letter positional alphabet for each known type, 2 RFC 8701 GREASE values, one mask-only GREASE look-alike and one unassigned type; {} lists of <= {} extensions x single deviations, plus lists of 255 / 256 / 257 / 1000 / 4000 / 16383 extensions and inner lists of 255..4000 elements, through the 3 list parsers. Oracles: strict reference decoder keyed by IANA type, tag == wire type, pairwise agreement of dispatchers, tag parsers accept exactly their own type and agree with the generic parser. Non-trivial: not cut inside the 4-byte header",
         contents.len(), nknown, d, n, nlists, k)));
+    // the same check against the crate built with all cargo features (std, serialize, unstable)
+    let mut sink = sink;
+    if run.tier == Tier::Thorough {
+        run.all_features_variant(&mut sink);
+    }
     let code = run.finish(
         &sink,
         cov,
